@@ -24,11 +24,11 @@ func (c *vCopy) Size() int { return c.size }
 
 // shapes: parents by node index
 var vShapes = [][][]int{
-	{{}, {0}, {1}},          // chain A <- B <- C
-	{{}, {0}, {0}},          // fan-out
-	{{}, {0}, {0, 1}},       // A <- C, {A,C} <- D
-	{{}, {0}, {0}, {1, 2}},  // diamond
-	{{}, {}, {0, 1}, {2}},   // two roots joined, then a child
+	{{}, {0}, {1}},         // chain A <- B <- C
+	{{}, {0}, {0}},         // fan-out
+	{{}, {0}, {0, 1}},      // A <- C, {A,C} <- D
+	{{}, {0}, {0}, {1, 2}}, // diamond
+	{{}, {}, {0, 1}, {2}},  // two roots joined, then a child
 }
 
 var (
